@@ -16,7 +16,8 @@ RULE_TEXT = ("C06-R: per loop-body path of Interface::run - Incomplete: no repor
              "C06-S: the only state carried across run's back-edge is (input, path); across process's back-edges the "
              "buffers and the two offsets. C06-O/C06-A (witness interfaces): in generated arms nothing fallible follows "
              "the handler call and the handler's error is propagated by `?` unchanged."
-             " C06-C03V/C03N: the conversion rules and the argument-vector rule of C03 (no wrapping or truncating conversion, no discarded push).")
+             " C06-C03V/C03N: the conversion rules and the argument-vector rule of C03 (no wrapping or truncating conversion, no discarded push)."
+             " C06-T/C06-D: on every witness interface the emitted trie accepts exactly the declared spellings and the dispatcher has one arm per declaration (rules C01-T/D) - an undefined header is a fault. C06-F: `no call` only for an empty message.")
 
 PROCESS = "microscpi::interface::Interface::process"
 EXECUTE = runsum.EXECUTE
@@ -102,6 +103,9 @@ def run(ck):
     with ck.under("C01-", "C06-C01"):
         c01.rule_X(ck, lib)
     parsefields.check(ck, lib, skeleton.Skeleton(ck, lib), "C06-F", ("empty",))
+    # a header that no declaration spells is a fault: the emitted trie accepts exactly the declared spellings (C01-T/D on
+    # the witness interfaces)
+    c01.rule_T(ck, T="C06-T", D="C06-D")
 
 
 def rule_R(ck, lib, RID):
